@@ -132,7 +132,8 @@ class Contract:
     def __init__(self, module, file, qual, params, ret=None, yields=None, requires=(), ensures=(), raises=None,
                  raises_ensures=None, locals=None, loops=None, calls=None, globals=None, modifies=(), defaults=None,
                  ignore_kwargs=False, star=None, exc_parents=None, comp_types=None, canaries=(), properties=(),
-                 trusted=False, note="", receiver_classes=None, use=(), inputs=None, native_fn=None, shards=1, native_frame_skip=(), callable_recv=False):
+                 trusted=False, note="", receiver_classes=None, use=(), inputs=None, native_fn=None, shards=1, native_frame_skip=(), callable_recv=False, no_library=False):
+        self.no_library = no_library
         self.callable_recv = callable_recv
         self.shards = shards
         self.native_frame_skip = list(native_frame_skip)
@@ -218,12 +219,12 @@ class SpecModule:
         self.contracts.append(c)
         return c
 
-    def lemma(self, name, vars, hyps, goal, induct=None, hints=(), properties=(), use=(), pattern=None, general=None, fuel=3):
+    def lemma(self, name, vars, hyps, goal, induct=None, hints=(), properties=(), use=(), pattern=None, general=None, fuel=3, ih=None):
         """lemma over spec functions.  vars: name->Ty; hyps/goal: expression strings; induct: name of the variable
         (ListT/DictT) for structural induction -- the hypothesis is instantiated for the tail, universally over the
         other variables listed in `general`."""
         self.lemmas.append(dict(name=name, vars=vars, hyps=list(hyps), goal=goal, induct=induct, hints=list(hints),
-                                properties=list(properties), use=list(use), pattern=pattern, general=general, fuel=fuel))
+                                properties=list(properties), use=list(use), pattern=pattern, general=general, fuel=fuel, ih=ih))
 
     def registry(self):
         return {(c.file, c.qual): c for c in self.contracts}
